@@ -18,6 +18,8 @@ def kind_sort(kind):
         return z3.StringSort()
     if kind == 'ref' or (isinstance(kind, tuple) and kind[0] == 'ref'):
         return RefSort
+    if kind == 'absval':
+        return z3.IntSort()
     if kind == 'float':
         return FltSort
     if isinstance(kind, tuple):
@@ -309,6 +311,10 @@ def Obj(cls, **fields):
 
 def Ref(cls=None):
     return Sort('Ref', cls)
+
+
+def Cls(name):
+    return Sort('Cls', name)
 
 
 def Lit(v):
